@@ -110,6 +110,7 @@ type Op struct {
 	PayLen       int   `json:"paylen,omitempty"`         // publish: pad payload to this length
 	OnDial       int   `json:"on_dial,omitempty"`        // engine R: released when dial number OnDial completes (instead of at AtUs)
 	Repeat       int   `json:"repeat,omitempty"`         // probe: number of iterations
+	SpinUs       int64 `json:"spin_us,omitempty"`        // engine R: real-time delay between the release of this op and its call
 }
 
 // Fault is one network / broker misbehaviour addressed by stable coordinates.
